@@ -419,6 +419,17 @@ Proof.
     + intro Hc. destruct (c20_shutdown_no_accept _ _ _ _ Hc E) as [Hc1 [Ha _]]. rewrite (IH2 Hc1). exact Ha.
 Qed.
 
+(* the shutdown request is idempotent: a second (third, ...) exit signal while the server is draining changes nothing,
+   and a shutdown request is possible in every state *)
+Theorem c20_stop_idempotent : forall s, stop s = true -> step cfg s EStop = Some (s, []).
+Proof. intros s H. simpl. rewrite H. reflexivity. Qed.
+
+Theorem c20_stop_always_enabled : forall s, exists s', step cfg s EStop = Some (s', []) /\ stop s' = true /\
+  pc s' = pc s /\ workers s' = workers s /\ backlog s' = backlog s /\ accepted s' = accepted s.
+Proof.
+  intro s. simpl. destruct (stop s) eqn:E; eexists; (split; [reflexivity|]); simpl; auto.
+Qed.
+
 (* blocked in select when the shutdown arrives: select returns, the body breaks, nothing is accepted or reaped *)
 Theorem c20_shutdown_break : forall s rlw rll, pc s = PSelect rlw rll -> stop s = true ->
   exists s1 s2 rw rls, step cfg s LSelect = Some (s1, [ORset rw rls true]) /\
